@@ -63,7 +63,7 @@ pub fn corpus() -> Vec<(String, String)> {
         isogen::render_with(&s, " ", nl)
     };
     c.push(("foo".into(), pick("\"\"\"\n  é\n  x\n\"\"\"", "\n")));
-    c.push(("foo".into(), format!("\n{}\n", pick("\"é𝄞\"", ",\n"))));
+    c.push(("foo".into(), format!("\n{}\n", pick("\"é\"", ",\n"))));
     c
 }
 
